@@ -10,6 +10,10 @@
 #include <cstring>
 #include <type_traits>
 
+#ifndef WIRE_BYTE
+#    define WIRE_BYTE char
+#endif
+
 namespace wire
 {
 template<int K>
@@ -1122,11 +1126,13 @@ template<class Msg, class TagId>
 void message_op(Ctx& cx, const SchemaShape& sh)
 {
     using L = typename Msg::level;
-    using MV = typename Msg::template view<char>;
-    using CMV = typename Msg::template view<const char>;
+    // the byte type the views are instantiated with is a build-flavour choice (char, unsigned char, std::byte)
+    using ByteT = WIRE_BYTE;
+    using MV = typename Msg::template view<ByteT>;
+    using CMV = typename Msg::template view<const ByteT>;
     const Req& rq = *cx.rq;
     Res& rs = *cx.rs;
-    char* p = reinterpret_cast<char*>(rq.p);
+    ByteT* p = reinterpret_cast<ByteT*>(rq.p);
     MV m{p, rq.n};
     if(rq.target == T_GROUP_AT_P)
     {
@@ -1134,7 +1140,7 @@ void message_op(Ctx& cx, const SchemaShape& sh)
         // down to the level that owns group rq.member; the group view is constructed directly at p
         group_type_at<L, CMV>(rq, 0, [&](auto gt) {
             using G = typename decltype(gt)::type;
-            G g{const_cast<const char*>(p), rq.n};
+            G g{const_cast<const ByteT*>(p), rq.n};
             auto r = sbepp::size_bytes_checked(g, rq.size_arg >= 0 ? (std::size_t)rq.size_arg : rq.n);
             rs.valid = r.valid;
             rs.size = r.size;
@@ -1180,7 +1186,7 @@ void message_op(Ctx& cx, const SchemaShape& sh)
     }
     case M_SBC:
     {
-        CMV cm{const_cast<const char*>(p), rq.n};
+        CMV cm{const_cast<const ByteT*>(p), rq.n};
         auto r = sbepp::size_bytes_checked(cm, rq.size_arg >= 0 ? (std::size_t)rq.size_arg : rq.n);
         rs.valid = r.valid;
         rs.size = r.size;
@@ -1193,7 +1199,7 @@ void message_op(Ctx& cx, const SchemaShape& sh)
         cx.by_tag = (rq.arg & 4) != 0;
         if(rq.arg & 1)
         {
-            CMV cm{const_cast<const char*>(p), rq.n};
+            CMV cm{const_cast<const ByteT*>(p), rq.n};
             auto c = sbepp::init_const_cursor(cm);
             rs.cursor_off = cx.off(c.pointer());
             cursor_level<L>(cx, cm, c, ss, 0);
@@ -1220,7 +1226,7 @@ void message_op(Ctx& cx, const SchemaShape& sh)
     }
     case M_VISIT_FULL:
     {
-        CMV cm{const_cast<const char*>(p), rq.n};
+        CMV cm{const_cast<const ByteT*>(p), rq.n};
         auto c = sbepp::init_const_cursor(cm);
         Recorder<TagId> r{&cx, rq.stop_at, true};
         sbepp::visit(cm, c, r);
